@@ -69,3 +69,19 @@ package plugins
 //@   requires shape: x != nil && forall(j, 0, len(x.Fields), x.Fields[j] != nil && ptshaped(x.Fields[j].Type))
 //@   loop 1 invariant fields: 0 <= $k && $k <= len(x.Fields) && len(fields) == len(x.Fields) && forall(j, 0, $k, fields[j].Name == x.Fields[j].Name && tenc(x.Fields[j].Type, fields[j].Type))
 //@   ensures carries: len(result.Fields) == len(x.Fields) && forall(j, 0, len(x.Fields), result.Fields[j].Name == x.Fields[j].Name && tenc(x.Fields[j].Type, result.Fields[j].Type)) && result.NoRetractions == x.NoRetractions && result.TimeField == x.TimeField
+
+// C26 predicates. A pushed-down predicate arrives without its function values; each function call is given the
+// Function / TypeFn of a local overload of the same name whose signature equals the received one (arity, strictness,
+// output type and every argument type, by Type.Equals) — so it evaluates as it did on the sending side — and when the
+// name or the signature is unknown the predicate is rejected (the flag handed back becomes false). Expressions that
+// are not function calls pass through unchanged.
+//@ spec matches(d physical.FunctionDescriptor, r physical.FunctionDescriptor) bool = len(d.ArgumentTypes) == len(r.ArgumentTypes) && d.Strict == r.Strict && d.OutputType.Equals(r.OutputType) && forall(q, 0, len(d.ArgumentTypes), d.ArgumentTypes[q].Equals(r.ArgumentTypes[q]))
+//@ func RepopulatePhysicalExpressionFunctions$lit1
+//@   requires call: expr.ExpressionType == 2 ==> expr.FunctionCall != nil
+//@   loop 1 invariant nomatch: forall(j, 0, $k, !matches(details.Descriptors[j], receivedDescriptor))
+//@   loop 2 invariant prefix: 0 <= $k && $k <= len(descriptor.ArgumentTypes) && forall(q, 0, $k, descriptor.ArgumentTypes[q].Equals(receivedDescriptor.ArgumentTypes[q]))
+//@   ensures passthrough: expr.ExpressionType != 2 ==> same(result, expr) && outOk == old(outOk)
+//@   ensures rejected: expr.ExpressionType == 2 && ok && forall(j, 0, len(details.Descriptors), !matches(details.Descriptors[j], receivedDescriptor)) ==> !outOk
+//@   ensures unknown: expr.ExpressionType == 2 && !ok ==> !outOk
+//@   ensures sticky: !old(outOk) ==> !outOk
+//@   ensures chosen: expr.ExpressionType == 2 && old(outOk) && outOk ==> exists(j, 0, len(details.Descriptors), matches(details.Descriptors[j], receivedDescriptor))
